@@ -131,6 +131,22 @@ def registry_part(run: Run, tier: str, seed: int) -> None:
     if tier == "quick":
         seqs = rnd.sample(seqs, 400)
     cases = [{"ops": list(s) + [("create", 3), ("resolve", 3), ("resolve", 0), ("discard", 3)]} for s in seqs]
+    # histories walked by TLC on Docs.tla (create / resolve / discard / transplant of a reference object between documents)
+    nwalk = 600 if tier == "quick" else 6000
+
+    def walks():
+        r = tlc.must_ok(tlc.run("Docs", "Docs_sim.cfg", workers=1, timeout=1800,
+                                extra=("-simulate", f"num={nwalk}", "-depth", "10", "-seed", str(seed + 41))), "Docs walks")
+        seen, out = set(), []
+        for h in r.printed:
+            k = json.dumps(h)
+            if k not in seen:
+                seen.add(k)
+                out.append(h)
+        return {"printed": out}
+    wk = tlc.cached(f"docs-{nwalk}-{seed}-{tlc.spec_digest('Docs')}", walks)
+    run.coverage.setdefault("tlc_runs", []).append({"run": f"Docs/Docs_sim.cfg -simulate num={nwalk}", "histories": len(wk["printed"])})
+    cases += [{"ops": [(o[0], o[1] if not isinstance(o[1], list) else tuple(o[1])) for o in h]} for h in wk["printed"]]
     outs = pmap("harness.impl", "registry_case", cases, chunk=40)
     tlc.WORK.mkdir(exist_ok=True)
     tmp = Path(tempfile.mkdtemp(prefix="reg-", dir=tlc.WORK))
@@ -187,6 +203,8 @@ def run_engine(prop: str, tier: str, seed: int) -> int:
                       "formals": bool(m["ch"]) and m["ch"][0]["kind"] == "formals"})
     obs = pmap("harness.impl", "scope_case", [{"text": c["text"], "keys": c["keys"], "edit": c["edit"], "formals": c["formals"]}
                                                for c in cases], chunk=300)
+    SEQ = 10_000_000
+    seq_lines: dict = {}
     tlc.WORK.mkdir(exist_ok=True)
     tmp = Path(tempfile.mkdtemp(prefix="scope-", dir=tlc.WORK))
     try:
@@ -210,6 +228,19 @@ def run_engine(prop: str, tier: str, seed: int) -> int:
             lines.append(json.dumps({"id": c["id"], "ch": pin["ch"], "name": "a",
                                      "obs": {"res": r["res"], "isint": isint, "v": int(r["text"]) if isint else 0, "mro": r.get("mro", [])},
                                      "edit": ed(o.get("edit"), 99), "assign": ed(o.get("assign"), 98)}))
+            # the third step of the recorded history (set x; set @a; set x), judged on the chain the SECOND step left behind
+            sq = o.get("seq") or []
+            if len(sq) == 3 and sq[0]["res"] == "ok" and sq[1]["res"] == "ok" and "text" in sq[2]:
+                pin2 = chain_of(sq[1]["text"])
+                if pin2 is not None and pin2["x"] == {"k": "ref", "n": "a"}:
+                    e3 = sq[2]
+                    d3 = {"present": True, "res": e3["res"], "changed": [], "xref": False, "xint": False} if e3["res"] != "ok" else \
+                        {"present": True, "res": "ok", **diff_chain(pin2, chain_of(e3["text"]), 97)}
+                    seq_lines[SEQ + c["id"]] = c
+                    c["pin2"] = pin2
+                    lines.append(json.dumps({"id": SEQ + c["id"], "ch": pin2["ch"], "name": "a",
+                                             "obs": {"res": "-", "isint": False, "v": 0, "mro": []},
+                                             "edit": d3, "assign": ed(None, 0)}))
         shards = 8
         files = []
         for s in range(shards):
@@ -240,6 +271,27 @@ def run_engine(prop: str, tier: str, seed: int) -> int:
             cl = sorted(bad)[0]
             run.violation(f"{cl}|{provenance(c, prop)}", cl,
                           {"input": c["text"], "access": c["keys"], "observed": c["o"], "expected": c["model"]["res"], "all_clauses": bad})
+    if prop == "C11":
+        for sid, c in seq_lines.items():
+            v = verdict.get(sid)
+            if v is None:
+                raise tlc.TLCFailure(f"no verdict for history {sid}")
+            if verdict[c["id"]]["c11"]:
+                continue        # the first step already deviates (reported above): the rest of that history proves nothing
+            # the second step must have done what `set @a' means (C09): the innermost let layer now binds a to 55
+            lets = [j for j, f in enumerate(c["pin2"]["ch"], start=1) if f["kind"] == "let"]
+            if not lets or not any(b["n"] == "a" and b["k"] == "lit" and b["v"] == 55 for b in c["pin2"]["ch"][lets[-1] - 1]["binds"]):
+                continue
+            if any(len([b for b in f["binds"] if b["n"] == n]) > 1 for f in c["pin2"]["ch"] for n in ("a", "b")):
+                continue        # `set @a' next to `inherit a' (an inherited name is not an editable target): duplicate, nothing prescribed
+            run.case("history:" + c["text"], nontrivial=True)
+            if v["c11"]:
+                cl = sorted(v["c11"])[0]
+                ch2 = c["pin2"]["ch"]
+                run.violation(f"{cl}|third_step_of(set x; set @a; set x)|let_layers={sum(1 for f in ch2 if f['kind'] == 'let')}"
+                              f"|with={any(f['kind'] == 'with' for f in ch2)}|inherit={any(b['k'] == 'inh' for f in ch2 for b in f['binds'])}",
+                              cl, {"input": c["text"], "history": ["set x 99", "set @a 55", "set x 97"], "texts": c["o"]["seq"], "all_clauses": v["c11"]})
+        run.coverage["three_step_histories"] = len(seq_lines)
     for c in cases[:: max(1, len(cases) // 5)][:5]:
         run.sample({"input": c["text"], "access": c["keys"], "observed": c["o"].get("resolve"), "specified": c["model"]["res"]})
     run.assumptions += ["harness/project.py chain_of() (independent reader of the frames around the reference)",
